@@ -20,7 +20,7 @@ for d in sorted(glob.glob("/verif/seeded/C*-*")):
     needs = json.load(open("/verif/tools/seed_needs.json"))
     if sid in needs:
         m["needs"] = needs[sid]
-    m["round"] = 1 if int(sid.split("-")[1]) <= 2 else 2
+    m["round"] = (int(sid.split("-")[1]) + 1) // 2
     notes = os.path.join(d, "agent_notes.md")
     if False:
         txt = open(notes).read()
